@@ -289,19 +289,8 @@ def check(ctx):
         check_loop(ctx, key)
     # the master equation is built from the stochastic propensities: the interface must evaluate the stochastic slot of every reaction
     # (C01 R1.4) and the stochastic mass-action forms must be the combinatorial ones (C01 R1.1) - re-emitted here
-    from ..core import SubCtx
     from . import c01
-    prog.mod('types'); prog.mod('types.pxd')
-    sub = SubCtx(ctx)
-    for cls in ('ModelCSimInterface', 'SafeModelCSimInterface'):
-        for slot in ('compute_stochastic_propensities', 'compute_stochastic_volume_propensities'):
-            c01.check_iface_loop(sub, cls, slot)
-    c01.check_massaction(sub)
-    roles = c01.check_binding(sub, 'BimolecularPropensity')
-    if all(r in roles for r in ('k', 's1', 's2')):
-        c01.check_formulas(sub, 'BimolecularPropensity', roles)
-    for rule, key, ok, where, what, detail in sub.got:
-        if rule == 'R1.4-iface-loop' or (rule == 'R1.1-formula' and 'stochastic' in key and 'volume' not in key):
-            ctx.ob('R5.3-stochastic-rates', '%s/%s' % (rule, key), ok, where, what, detail)
+    c01.reemit(ctx, 'R5.3-stochastic-rates', 'stochastic', ('compute_stochastic_propensities', 'compute_stochastic_volume_propensities'))
+    ctx.floor('R5.3-stochastic-rates', 40)
     ctx.floor('R5.1-primitive', 4)
     ctx.floor('R5.2-order', 4)
